@@ -125,10 +125,28 @@ class Gen:
             name, tsc, bt, seq, tset = r.choice(self.train)
             rb = lambda m: [r.randint(0, 1) for _ in range(m)]
             if bt == "NORMAL":
-                return [0] * 3 + rb(57) + rb(1) + list(seq) + rb(1) + rb(57) + [0] * 3
-            if bt == "SYNC":
-                return [0] * 3 + rb(39) + list(seq) + rb(39) + [0] * 3
-            return [0] * 8 + list(seq) + rb(36) + [0] * 3 + [0] * 60
+                b = [0] * 3 + rb(57) + rb(1) + list(seq) + rb(1) + rb(57) + [0] * 3
+            elif bt == "SYNC":
+                b = [0] * 3 + rb(39) + list(seq) + rb(39) + [0] * 3
+            else:
+                b = [0] * 8 + list(seq) + rb(36) + [0] * 3 + [0] * 60
+            pos = {"NORMAL": 61, "SYNC": 42, "ACCESS": 8}[bt]
+            a = r.random()
+            if a < 0.12 and pos >= len(seq):
+                # the payload happens to carry the same pattern once more, in front of the training sequence
+                o = r.randint(0, pos - len(seq))
+                b[o:o + len(seq)] = list(seq)
+            elif a < 0.2 and bt == "NORMAL":
+                # a normal-burst sequence is a 16-bit core extended cyclically: the 16 bits in front of it repeat its head
+                b[pos - 16:pos] = list(seq)[:16]
+            elif a < 0.26 and pos + 2 * len(seq) <= len(b) - 3:
+                # ... or once more behind it
+                o = r.randint(pos + len(seq), len(b) - 3 - len(seq))
+                b[o:o + len(seq)] = list(seq)
+            elif a < 0.3:
+                # one bit of the training sequence wrong: no table sequence is present at that position
+                b[pos + r.randrange(len(seq))] ^= 1
+            return b
         if k < 0.6:
             return [0] * n
         if k < 0.65 and not self.clean:
